@@ -442,6 +442,8 @@ package stream
 //@ ensures.count[C12,C16] atomicval(s.activeStreams) == len(ids)
 // the streams are counted before the first one is requested: an end that arrives while the others are still
 // being opened is then subtracted from the full count, not overwritten by it
+//@ rely stream.Checkpoint.Load presnap loading
+//@ ensures.observers_published_after_the_positions[C16] at(loading, s.observers) == old(s.observers)
 //@ rely "stream.(*stream).openAllStreams" presnap opening
 //@ ensures.counted_before_the_first_request[C16,C12] at(opening, atomicval(s.activeStreams)) == len(ids)
 //@ ensures.checkpoint_for_this_assignment[C02,C11] typeis(s.checkpoint, "*checkpoint") && fresh(as(s.checkpoint, "*checkpoint")) && as(s.checkpoint, "*checkpoint").vbIds == ids && as(s.checkpoint, "*checkpoint").metadata == s.metadata && as(s.checkpoint, "*checkpoint").client == s.client && arg(stream.Checkpoint.Load, 0, recv) == s.checkpoint
